@@ -35,6 +35,56 @@ def spec_rows():
     return rows
 
 
+def annotation_rows():
+    """the message classes' own params / result / id annotations denote the metamodel types"""
+    import attrs as _attrs
+    from typing import Optional, Union
+    from lsprotocol import converters, types as L
+    from vlib import pyimage
+
+    converters.get_converter()
+    a, b = {}, {}
+
+    def row(m, cname, attr, want):
+        cls = getattr(L, cname, None)
+        a[(m, "%s.%s annotation" % (cname, attr))] = "ok"
+        if cls is None or not _attrs.has(cls):
+            return
+        f = {x.name: x for x in _attrs.fields(cls)}.get(attr)
+        if f is None:
+            return
+        b[(m, "%s.%s annotation" % (cname, attr))] = "ok" if f.type == want else "got %r, expected %r" % (f.type, want)
+
+    for r in SPEC.requests:
+        req, resp, part = SPEC.message_names(r, True)
+        m = r["method"]
+        try:
+            if r.get("params") and isinstance(r["params"], dict):
+                row(m, req, "params", pyimage.expected_annotation(r["params"], req + "Params"))
+            else:
+                row(m, req, "params", Optional[type(None)])
+            t = r.get("result")
+            if t:
+                want = pyimage.expected_annotation(t)
+                if SPEC.null_admitting(t):
+                    want = Optional[want]
+                row(m, resp, "result", want)
+        except pyimage.Unmappable:
+            pass
+        row(m, req, "id", Union[int, str])
+        row(m, resp, "id", Optional[Union[int, str]])
+    for n in SPEC.notifications:
+        cn, _, _ = SPEC.message_names(n, False)
+        try:
+            if n.get("params") and isinstance(n["params"], dict):
+                row(n["method"], cn, "params", pyimage.expected_annotation(n["params"], cn + "Params"))
+            else:
+                row(n["method"], cn, "params", Optional[type(None)])
+        except pyimage.Unmappable:
+            pass
+    return a, b
+
+
 def _type_name(t, and_name):
     if t is None:
         return "None"
@@ -165,6 +215,10 @@ def check(tier):
             "    return (a.get(k, '<absent>') == b.get(k, '<absent>'), '%%s of %%s: metamodel %%r, package %%r' %% (k[1], k[0], a.get(k, '<absent>'), b.get(k, '<absent>')))\n"
         ) % (m, fact)
         chk.violation("method %s: %s is %r, the metamodel says %r" % (m, fact, got, want), {"kind": "python", "code": code, "site": "%s %s" % (m, fact)})
+    aa, ab = annotation_rows()
+    for (m, fact), want, got in relation_query(chk, "message_class_annotations", aa, ab):
+        code = "from props import c09\n" "def replay():\n    a, b = c09.annotation_rows(); k = (%r, %r)\n    return (a.get(k) == b.get(k, '<absent>'), '%%s: %%s' %% (k[1], b.get(k, '<absent>')))\n" % (m, fact)
+        chk.violation("method %s: %s: %s" % (m, fact, got), {"kind": "python", "code": code, "site": "%s %s" % (m, fact)})
     # constants that name no method ("and for nothing else")
     methods = {r["method"] for r in SPEC.requests} | {n["method"] for n in SPEC.notifications}
     registry(chk, "after import")
